@@ -283,6 +283,12 @@ def _cond(v, pol):
     if v[0] == "call" and v[1] == "isinstance" and v[2][0][0] == "field" \
             and v[2][1] == ("global", "int"):
         return ("field_is_int", v[2][0][1], pol)
+    if v[0] == "compare" and v[1] == ("Is",) and v[2][0] == "typeof" \
+            and v[2][1][0] == "field" and v[3][0] == ("global", "int"):
+        return ("field_is_int", v[2][1][1], pol)
+    if v[0] == "compare" and v[1] == ("Eq",) and v[2][0] == "field" \
+            and v[3][0][0] == "const" and isinstance(v[3][0][1], (int, float)):
+        return ("field_eq", v[2][1], v[3][0][1], pol)
     if v[0] == "compare" and v[1] == ("Eq",) and v[2] == ("len", NODE) \
             and v[3][0][0] == "const":
         return ("len_eq", v[3][0][1], pol)
@@ -615,6 +621,25 @@ def _extract_handler(model, mapper, n: NodeClass, mem, precs, _depth=0):
                     break
             if nxt is None:
                 raise Unsupported(f"super().{mem.node.name}: no inherited handler")
+            for sub in _extract_handler(model, mapper, n, nxt, precs):
+                variants.append(Variant(tuple(conds) + tuple(sub.conds),
+                                        sub.template))
+            continue
+        if isinstance(rv, tuple) and rv[0] == "call" and \
+                rv[1].endswith("." + mem.node.name) and len(rv[2]) >= 2 and \
+                rv[2][1] == NODE and not rv[1].startswith(("self.", "super.")):
+            # the handler of a named base class: Base.map_x(self, expr, prec)
+            bname = rv[1].rsplit(".", 1)[0].split(".")[-1]
+            nxt = None
+            for k in model.mro(mapper):
+                if hasattr(k, "members") and k.name == bname and \
+                        k is not mem.owner:
+                    m2 = model.lookup(k, mem.node.name)
+                    if m2 is not None and m2.kind == "func":
+                        nxt = m2
+                    break
+            if nxt is None:
+                raise Unsupported(f"{rv[1]}: no such inherited handler")
             for sub in _extract_handler(model, mapper, n, nxt, precs):
                 variants.append(Variant(tuple(conds) + tuple(sub.conds),
                                         sub.template))
